@@ -29,6 +29,8 @@ KINDS = {
     "unresolved_namespace_member": (["    pr(nsmod.nosuch)"], [0]),
     "unresolved_namespace_member_multiline": (["    two(1,", "        nsmod.nosuch", "", "    )"], [1]),
     "unresolved_namespace_function_multiline": (["    nsmod.nosuch(", "        1", "    )"], [0]),
+    "operator_mismatch_after_multi_line_string": (["    z := \"a", "b\" + 1"], [0, 1]),
+    "unresolved_name_after_multi_line_string": (["    w := (\"a", "b", "c\", nope)"], [0, 2]),
 }
 TOP_KINDS = {
     "duplicate_global": (["dup :: 1", "other_name :: 2", "dup :: 3"], [0, 2]),
@@ -172,6 +174,11 @@ SYNTAX = {
     "dangling_operator_then_a_line_that_could_be_an_operand": (["    b := 1 +", "    pr(3)"], [0]),
     "dangling_boolean_operator": (["    t := true and", "", "", "    u := 3"], [0]),
     "dangling_comparison_operator": (["    t := 1 <=", "    // c", "    u := 3"], [0]),
+    # something that is not a line break after a statement whose LAST token spans lines: the offending token is on the last of those lines
+    "junk_after_a_statement_ending_in_a_multi_line_string": (["    s := \"a", "b", "c\" junk"], [2]),
+    "junk_after_a_multi_line_call": (["    two(1,", "        2) junk"], [1]),
+    "junk_after_a_call_with_a_multi_line_string_argument": (["    pr(\"a", "b\") junk"], [1]),
+    "second_statement_after_a_multi_line_string": (["    s := \"a", "", "b\" t := 2"], [2]),
 }
 
 
